@@ -7,7 +7,8 @@ from ..common.core import Sub, Violation, lib_call
 from . import c01, c02
 
 ID = "C08"
-RULE = ("case = (continuum, dissimilarity spec); each case is solved under three solver configurations: CBC usable, `import cylp` failing, "
+RULE = ("case = (continuum, dissimilarity spec); each case is solved under four solver configurations: CBC usable, `import cylp` failing with "
+        "ModuleNotFoundError (sys.modules entry None), `import cylp` failing with a plain ImportError (unloadable shared library, injected by a meta-path finder), "
         "CBC raising cvxpy.SolverError (fault injected for solver=CBC only) - for the best and for the soft alignment. Oracle: the solve-spy confirms "
         "which solver ran (CBC / GLPK_MI / failed CBC then GLPK_MI); best is a partition and soft a cover under every configuration; disorders agree "
         "across configurations within 2e-5 relative, and with the independent optimum when the case is small enough (prod(k_i+1) <= 1300). "
@@ -15,7 +16,7 @@ RULE = ("case = (continuum, dissimilarity spec); each case is solved under three
 ASSUMPTIONS = ["fault injection is test-side: sys.modules['cylp']=None and a wrapper around cvxpy.Problem.solve",
                "medium cases (up to prod(k_i+1) = 20000) have no exact oracle: only the cross-configuration relation is checked there"]
 
-MODES = ["cbc", "glpk", "cbc_fail"]
+MODES = ["cbc", "glpk", "cbc_fail", "cylp_broken"]
 
 
 def check(case):
@@ -25,8 +26,11 @@ def check(case):
     d = oracle.build_dissim(spec)
     res = {}
     multi = False
+    # the fourth configuration (unloadable cylp) costs as much as the others: it is applied to every third case
+    import zlib
+    modes = MODES if zlib.crc32(oracle.canon(case).encode()) % 3 == 0 else MODES[:3]
     for kind in ("best", "soft"):
-        for mode in MODES:
+        for mode in modes:
             with backends.backend(mode) as used:
                 fn = c.get_best_alignment if kind == "best" else c.get_best_soft_alignment
                 al = lib_call(f"{kind}-alignment[{mode}]", fn, d)
@@ -40,10 +44,10 @@ def check(case):
             multi = multi or any(sum(1 for s in sl if s is not None) >= 2 for sl in slots)
             res[(kind, mode)] = float(al.disorder)
         base = res[(kind, "cbc")]
-        for mode in MODES[1:]:
+        for mode in modes[1:]:
             if not oracle.close(res[(kind, mode)], base):
                 raise Violation(f"{kind}:disorder-differs-across-backends", f"cbc {base} vs {mode} {res[(kind, mode)]}")
-    classes = [f"n={len(per)}", f"kind={spec['kind']}"]
+    classes = [f"n={len(per)}", f"kind={spec['kind']}"] + (["with-unloadable-cylp"] if len(modes) == 4 else [])
     small = gen.continuum_product(cont) <= 1300
     if small:
         classes.append("with-oracle")
@@ -56,7 +60,7 @@ def check(case):
             else:
                 up, lo = oracle.optimum_milp(lst, costs, cover)
             mean = nunits / len(lst)
-            for mode in MODES:
+            for mode in modes:
                 v = res[(kind, mode)]
                 tol = oracle.REL_TOL * max(1.0, abs(lo / mean))
                 if v > up / mean + tol or v < lo / mean - tol:
